@@ -163,7 +163,12 @@ pub fn cmd(args: &Args) {
                     };
                     let recovery = recover(&script_arc, &image.process_image(), false, k as u64, deadline);
                     output_in.add("pair_crash_points", 1);
-                    let got = if recovery.out == "ok" { queue_state(&recovery.st, q) } else { Value::Null };
+                    // (the Json module of TLC rejects null: an absent state is an object with a = -1)
+                    let got = if recovery.out == "ok" {
+                        queue_state(&recovery.st, q)
+                    } else {
+                        json!({"a": -1, "recs": [], "next": -1, "last": -1, "lastrec": [-1, -1, -1]})
+                    };
                     lines.push(json!({"ev": "pairc", "q": q, "i": prev, "incall": incall as i64, "out": recovery.out,
                                       "got": got, "want": want}));
                 }
